@@ -333,11 +333,11 @@ def run_harness(ctx, sets, rules, tag=""):
     fd_out = os.path.join(ctx.scratch, "c14_fd_out%s.ndjson" % tag)
     pl_out = os.path.join(ctx.scratch, "c14_pl_out%s.ndjson" % tag)
     env = {"VERIF_C14_EVENTS": evp, "VERIF_C14_RULES": rp, "VERIF_OUT": fd_out}
-    rc, txt = ctx.run_bin(fd_bin, "^TestVerifC14$", env=env, timeout=1500)
+    rc, txt = ctx.run_bin(fd_bin, "^TestVerifC14$", env=env, timeout=4500)
     if rc != 0 or not os.path.exists(fd_out):
         raise vlib.Infra("C14 fd harness failed rc=%s:\n%s" % (rc, txt[-3000:]))
     env = {"VERIF_C14_EVENTS": evp, "VERIF_C14_RULES": rp, "VERIF_C14_EXTRACT": fd_out, "VERIF_OUT": pl_out}
-    rc, txt = ctx.run_bin(pl_bin, "^TestVerifC14$", env=env, timeout=1500)
+    rc, txt = ctx.run_bin(pl_bin, "^TestVerifC14$", env=env, timeout=4500)
     if rc != 0 or not os.path.exists(pl_out):
         raise vlib.Infra("C14 pipeline harness failed rc=%s:\n%s" % (rc, txt[-3000:]))
     # end to end: every rule through the public fd.SetupActions and a real running pipeline (cheap enough for all)
@@ -348,7 +348,7 @@ def run_harness(ctx, sets, rules, tag=""):
             f.write(json.dumps({"id": r.id, "kind": r.kind, "set": r.set, "cfg": r.cfg}, ensure_ascii=False) + "\n")
     e2e_out = os.path.join(ctx.scratch, "c14_e2e_out%s.ndjson" % tag)
     env = {"VERIF_C14_EVENTS": evp, "VERIF_C14_E2E_RULES": ep, "VERIF_OUT": e2e_out}
-    rc, txt = ctx.run_bin(fd_bin, "^TestVerifC14E2E$", env=env, timeout=1500)
+    rc, txt = ctx.run_bin(fd_bin, "^TestVerifC14E2E$", env=env, timeout=4500)
     if rc != 0 or not os.path.exists(e2e_out):
         raise vlib.Infra("C14 end-to-end harness failed rc=%s:\n%s" % (rc, txt[-3000:]))
     ctx._c14 = {"events": evp, "fd_bin": fd_bin, "pl_bin": pl_bin, "extract": fd_out}
@@ -505,7 +505,7 @@ def run_concurrent(ctx, sets, abs_events, rules):
     out = os.path.join(ctx.scratch, "c14_conc_out.ndjson")
     env = {"VERIF_C14_EVENTS": c["events"], "VERIF_C14_CONC_RULES": cp, "VERIF_C14_EXTRACT": c["extract"],
            "VERIF_OUT": out, "VERIF_C14_CONC_MS": budget_ms}
-    rc, txt = ctx.run_bin(c["pl_bin"], "^TestVerifC14Conc$", env=env, timeout=600)
+    rc, txt = ctx.run_bin(c["pl_bin"], "^TestVerifC14Conc$", env=env, timeout=1800)
     if rc != 0 or not os.path.exists(out):
         raise vlib.Infra("C14 concurrency harness failed rc=%s:\n%s" % (rc, txt[-3000:]))
     res = load_ndjson(out)
@@ -513,7 +513,7 @@ def run_concurrent(ctx, sets, abs_events, rules):
     # the same selection on a real parallel pipeline (GOMAXPROCS*2 processors share every checker)
     e2e_out = os.path.join(ctx.scratch, "c14_conc_e2e_out.ndjson")
     env = {"VERIF_C14_EVENTS": c["events"], "VERIF_C14_E2E_RULES": cp, "VERIF_OUT": e2e_out, "VERIF_C14_E2E_PAR": "1"}
-    rc, txt = ctx.run_bin(c["fd_bin"], "^TestVerifC14E2E$", env=env, timeout=900)
+    rc, txt = ctx.run_bin(c["fd_bin"], "^TestVerifC14E2E$", env=env, timeout=2700)
     if rc != 0 or not os.path.exists(e2e_out):
         raise vlib.Infra("C14 parallel end-to-end harness failed rc=%s:\n%s" % (rc, txt[-3000:]))
     e2e = load_ndjson(e2e_out)
@@ -591,26 +591,26 @@ def run(ctx):
     if ctx.replay:
         return replay(ctx)
     tier = "quick" if ctx.tier == "quick" else "thorough"
-    d = ctx.tlc_expect_ok("DoIf", "DoIf_%s.cfg" % tier, timeout=1500, deadlock=False)
-    m = ctx.tlc_expect_ok("MatchFields", "MatchFields_%s.cfg" % tier, timeout=900, deadlock=False)
+    d = ctx.tlc_expect_ok("DoIf", "DoIf_%s.cfg" % tier, timeout=4500, deadlock=False)
+    m = ctx.tlc_expect_ok("MatchFields", "MatchFields_%s.cfg" % tier, timeout=2700, deadlock=False)
     if tier == "thorough":
         # residual configurations: all deviation switches off; the invariants must hold with no excuse
-        ctx.tlc_expect_ok("DoIf", "DoIf_fixed.cfg", count=False, timeout=900, deadlock=False)
+        ctx.tlc_expect_ok("DoIf", "DoIf_fixed.cfg", count=False, timeout=2700, deadlock=False)
     # the guard in front of the selector (processor.doActions): own busy flag, not busyActionsTotal
-    ctx.tlc_expect_ok("ActionChain", "ActionChain_%s.cfg" % tier, timeout=300, deadlock=False)
+    ctx.tlc_expect_ok("ActionChain", "ActionChain_%s.cfg" % tier, timeout=900, deadlock=False)
     for cfgname, what in (("ActionChain_mutant.cfg", "~M_SelectorIndependentOfOtherActions"),
                           ("ActionChain_mutant_kinds.cfg", "~M_OnlyTimeoutExempt")):
-        mu = ctx.tlc("ActionChain", cfgname, timeout=300, deadlock=False, name="ActionChain/" + cfgname[12:-4])
+        mu = ctx.tlc("ActionChain", cfgname, timeout=900, deadlock=False, name="ActionChain/" + cfgname[12:-4])
         if mu.ok or mu.violated != "SelectorDecides":
             raise vlib.Infra("spec mutant %s was not rejected by TLC: %s" % (what, mu.violated))
     for cfgname, what in (("DoIf_mutant_shift.cfg", "~M_ShiftOnce (value_shift applied twice)"),
                           ("DoIf_mutant_esclen.cfg", "~M_LenOfValue (byte_len_cmp of the escaped text)"),
                           ("DoIf_mutant_bytetable.cfg", "~M_ContainsAnyRunes (contains_any over a byte table)")):
-        mu = ctx.tlc("DoIf", cfgname, timeout=300, deadlock=False, name="DoIf/" + cfgname[5:-4])
+        mu = ctx.tlc("DoIf", cfgname, timeout=900, deadlock=False, name="DoIf/" + cfgname[5:-4])
         if mu.ok or mu.violated != "ImplRefinesDecl":
             raise vlib.Infra("spec mutant %s was not rejected by TLC: %s" % (what, mu.violated))
     # spec mutant: the repaired defect D11 switched back on must be rejected by TLC (ImplMatchesDecl)
-    mu = ctx.tlc("MatchFields", "MatchFields_mutant_d11.cfg", timeout=600, deadlock=False, name="MatchFields/mutant_d11")
+    mu = ctx.tlc("MatchFields", "MatchFields_mutant_d11.cfg", timeout=1800, deadlock=False, name="MatchFields/mutant_d11")
     if mu.ok or mu.violated != "ImplMatchesDecl":
         raise vlib.Infra("spec mutant D11 (and-mode regexp condition asked for a value) was not rejected by TLC: %s" % mu.violated)
     sets, abs_events, rules = build_cases(ctx, d.printed, m.printed)
